@@ -19,7 +19,7 @@ def generate(rng, tier, index):
     if rng.random() < 0.01:
         import sys
 
-        return {"huge": True, "N": rng.choice([2**53 + 1, 10**17 + 7, sys.maxsize, 2**62 + 3]), "W": W, "mode": rng.choice(MODES), "kind": "sequential", "base_seed": None,
+        return {"huge": True, "N": rng.choice([2**53 + 1, 10**17 + 7, 2**60 + 1, 2**62 + 3]), "W": W, "mode": rng.choice(MODES), "kind": "sequential", "base_seed": None,
                 "torch_seed": 1, "distributed": True, "init_epoch": [0] * W, "ops": []}
     sc = {
         "N": N,
@@ -100,7 +100,7 @@ def execute_huge(sc):
                     return res
                 try:
                     first = [int(x) for x in itertools.islice(iter(s), 3)]
-                except MemoryError:
+                except (MemoryError, ValueError, OverflowError):
                     # an implementation that materialises the epoch cannot be asked for 2**53 indices; not judged
                     res.bump("probe.huge_iteration_not_judged")
                     continue
